@@ -12,7 +12,7 @@
 (* partial: outside the domain the properties quantify over the slot is     *)
 (* Unspec and only C01 (some slot, no panic) applies.                       *)
 (***************************************************************************)
-EXTENDS Env, Clock, TLC
+EXTENDS Env, Calendar, TLC
 
 ArithMeaning(toks) ==
   IF DateLike(toks) THEN Unspec
@@ -21,6 +21,12 @@ ArithMeaning(toks) ==
 \* a line that is expected to fail; whether it does is observed, the specification only says what
 \* follows from it: an error slot leaves the bindings unchanged (C03)
 Fails == [k |-> "fails"]
+
+\* a date operand: a civil date (y = 0: no year written, the current year is meant) or a day relative to today
+DateOperand(o, today) ==
+  IF "rel" \in DOMAIN o THEN Date(today + o.rel)
+  ELSE LET y == IF o.y = 0 THEN YearOfDay(today) ELSE o.y IN
+       IF ValidCivil(y, o.m, o.d) THEN DateOf(y, o.m, o.d) ELSE NotDate
 
 RECURSIVE LineMeaning(_, _)
 LineMeaning(ctx, line) ==
@@ -47,6 +53,13 @@ LineMeaning(ctx, line) ==
     [] line.form = "time_diff" ->
          LET z1 == ZoneOr(line.z, ctx.calc.tz)  z2 == ZoneOr(line.z2, ctx.calc.tz) IN
          [slot |-> IF NoWrap(line.w, z1) /\ NoWrap(line.w2, z2) THEN DiffTime(line.w, z1, line.w2, z2) ELSE Unspec, env |-> ctx.env]
+    [] line.form = "date_lit"  -> [slot |-> DateOperand(line.a, ctx.today), env |-> ctx.env]
+    [] line.form = "date_shift" ->
+         LET a == DateOperand(line.a, ctx.today) IN
+         [slot |-> IF a.k = "date" THEN ShiftDate(a, line.op, line.n, line.u) ELSE Unspec, env |-> ctx.env]
+    [] line.form = "date_diff" ->
+         LET a == DateOperand(line.a, ctx.today)  b == DateOperand(line.b, ctx.today) IN
+         [slot |-> IF a.k = "date" /\ b.k = "date" THEN DiffDates(a, b) ELSE Unspec, env |-> ctx.env]
     [] line.form = "shape"   -> [slot |-> Unspec, env |-> ctx.env]
     [] OTHER                 -> [slot |-> Unspec, env |-> ctx.env]
 
@@ -78,7 +91,13 @@ RunLines(ctx, lines, acc) ==
 PrintMatches(exp, obs) ==
   /\ (exp.k = "dur" /\ Has(obs, "parts")) => obs.parts = DurParts(exp)
   /\ (exp.k = "time" /\ Has(obs, "pr")) => obs.pr = TimePrinted(exp)
+PrintMatchesCtx(ctx, exp, obs) ==
+  (exp.k = "date" /\ Has(obs, "pr")) => DatePrintedOk(exp, ctx.today, obs.pr)
 WithPrint(v) == IF v.k = "dur" THEN v @@ [parts |-> DurParts(v)]
                 ELSE IF v.k = "time" THEN v @@ [pr |-> TimePrinted(v)] ELSE v
-SlotMatches(exp, obs) == IF exp.k = "fails" THEN obs.k \in SlotKinds ELSE Matches(exp, obs) /\ PrintMatches(exp, obs)
+SlotMatches(exp, obs) ==
+  IF exp.k = "fails" THEN obs.k \in SlotKinds
+  ELSE IF exp.k = "notkind" THEN obs.k \in SlotKinds /\ obs.k # exp.kind
+  ELSE Matches(exp, obs) /\ PrintMatches(exp, obs)
+SlotMatchesCtx(ctx, exp, obs) == SlotMatches(exp, obs) /\ PrintMatchesCtx(ctx, exp, obs)
 =============================================================================
